@@ -109,13 +109,15 @@ func init() {
 	register(&Prop{
 		ID: "C21", Title: "Explicit sizes are honoured and automatic sizes fit the label",
 		Patterns:    []string{"./d2graph", "./lib/shape", "./d2target"},
-		Explanation: "Decides axis consistency of the sizing code only (Graph.SetDimensions, Object.GetDefaultSize, SizeToContent, the GetDimensionsToFit / GetInnerBox implementations of lib/shape): widths are computed from widths and horizontal paddings, heights from heights and vertical paddings, and each is stored into the extent of its own axis; the one intended exception (label height added to both paddings of shapes with icons) is reviewed.",
+		Explanation: "Decides (1) constant-family agreement in lib/shape: where package constants form families that differ in one word (CLOUD_WIDE_…, CLOUD_TALL_…, CLOUD_SQUARE_…), a branch whose condition names one member uses only that member's constants in its body — the fit function and the inner-box function of a shape pick the same case; (2) axis consistency of the sizing code (Graph.SetDimensions, Object.GetDefaultSize, SizeToContent, the GetDimensionsToFit / GetInnerBox implementations of lib/shape): widths are computed from widths and horizontal paddings, heights from heights and vertical paddings, and each is stored into the extent of its own axis; the one intended exception (label height added to both paddings of shapes with icons) is reviewed.",
 		NotCovered:  geomNotCovered + "; that an explicit width/height reaches the object unchanged",
 		Technique:   "static analysis: name-typed axis inference over arithmetic (E15)",
 		Run: func(c *core.Check) {
 			c.Rule("C21.axis", "sizing arithmetic stays within one axis")
+			c.Rule("C21.constant-family", "a branch selected by one member of a constant family uses that member's constants")
 			pk := pkgsMatching(c, relIn("d2graph", "lib/shape"))
 			runAxisClause(c, "C21.axis", pk, nil, 250)
+			constantFamilies(c, "C21.constant-family", pkgsMatching(c, relIn("lib/shape")))
 		},
 	})
 	register(&Prop{
@@ -586,5 +588,97 @@ func runC29(c *core.Check) {
 		for _, k := range []string{"left", "top", "width", "height"} {
 			c.Decide(got[k] == want[k], "C29.viewport", "dimensions:"+k, dm.Decl.Pos(), k+" = "+want[k], fmt.Sprintf("the viewport's %s is %s, expected %s: the padding is not the same on both sides, or another axis is used", k, got[k], want[k]))
 		}
+	}
+}
+
+// constantFamilies: package constants NAME_<K>_REST that differ only in the word K form a family. In
+// `if cond { body }`, when cond mentions a constant with family word K1 and the body (not nested else-branches)
+// mentions a constant of the same prefix with family word K2 ≠ K1, the branch mixes two cases.
+func constantFamilies(c *core.Check, rule string, pkgs []*packages.Package) {
+	nif := 0
+	for _, pk := range pkgs {
+		// discover families
+		type pat struct {
+			key string
+			pos int
+		}
+		groups := map[pat]map[string]bool{}
+		sc := pk.Types.Scope()
+		var names []string
+		for _, n := range sc.Names() {
+			if _, ok := sc.Lookup(n).(*types.Const); ok && strings.Contains(n, "_") && strings.ToUpper(n) == n {
+				names = append(names, n)
+			}
+		}
+		for _, n := range names {
+			toks := strings.Split(n, "_")
+			for i := range toks {
+				cp := append([]string{}, toks...)
+				cp[i] = "*"
+				k := pat{strings.Join(cp, "_"), i}
+				if groups[k] == nil {
+					groups[k] = map[string]bool{}
+				}
+				groups[k][toks[i]] = true
+			}
+		}
+		// family word of a constant name: (prefix, word) for positions where a group has ≥ 2 members
+		famOf := func(n string) (string, string, bool) {
+			toks := strings.Split(n, "_")
+			for i := 1; i < len(toks); i++ {
+				cp := append([]string{}, toks...)
+				cp[i] = "*"
+				if g := groups[pat{strings.Join(cp, "_"), i}]; len(g) >= 2 {
+					return strings.Join(toks[:i], "_"), toks[i], true
+				}
+			}
+			return "", "", false
+		}
+		for _, fi := range c.P.Funcs(pk) {
+			info := fi.Pkg.TypesInfo
+			constsIn := func(n ast.Node) map[[2]string]bool {
+				out := map[[2]string]bool{}
+				ast.Inspect(n, func(m ast.Node) bool {
+					if _, isIf := m.(*ast.IfStmt); isIf && m != n {
+						return false // nested decisions pick their own case
+					}
+					if id, ok := m.(*ast.Ident); ok {
+						if k, ok := info.Uses[id].(*types.Const); ok && k.Pkg() == pk.Types {
+							if pre, w, ok := famOf(k.Name()); ok {
+								out[[2]string{pre, w}] = true
+							}
+						}
+					}
+					return true
+				})
+				return out
+			}
+			ast.Inspect(fi.Decl.Body, func(n ast.Node) bool {
+				is, ok := n.(*ast.IfStmt)
+				if !ok {
+					return true
+				}
+				cc := constsIn(is.Cond)
+				if len(cc) == 0 {
+					return true
+				}
+				nif++
+				bc := constsIn(is.Body)
+				for ck := range cc {
+					for bk := range bc {
+						if ck[0] == bk[0] && ck[1] != bk[1] {
+							c.Fail(rule, fmt.Sprintf("family:%s:%s_%s→%s_%s", fname(fi), ck[0], ck[1], bk[0], bk[1]), is.Pos(),
+								fmt.Sprintf("the branch is selected by a %s_%s… constant but computes with %s_%s… constants: this function and its siblings (fit vs. inner box) pick different cases for the same input, so the fitted size does not match the text area", ck[0], ck[1], bk[0], bk[1]))
+						}
+					}
+				}
+				return true
+			})
+		}
+	}
+	if nif < 4 {
+		c.Fail(rule, "family:sites", token.NoPos, fmt.Sprintf("only %d branches on family constants found", nif))
+	} else {
+		c.Pass(rule, "family:sites", token.NoPos, fmt.Sprintf("%d branches on family constants use their own member's constants", nif))
 	}
 }
